@@ -24,6 +24,12 @@ import time
 
 import amoco.system.core as SCORE
 import amoco.system.elf as ELF
+# read_program imports the format modules lazily: import them now, outside any time budget
+import amoco.system.pe        # noqa: F401
+import amoco.system.macho     # noqa: F401
+import amoco.system.coff      # noqa: F401
+import amoco.system.structs.HEX    # noqa: F401
+import amoco.system.structs.SREC   # noqa: F401
 
 from symx.oblig import Obligation, factory
 from symx.logic import And, Or, Not, Ite, Eq, Implies
@@ -54,7 +60,7 @@ def _alarm(signum, frame):
 KNOWN_CLASSES = ("Elf", "PE", "MachO", "COFF", "HEX", "SREC", "shellcode", "DataIO")
 
 
-def identify(data, budget=10):
+def identify(data, budget=3):
     "('ok', class name) | ('raise', signature) | ('timeout', '')"
     try:
         return _identify(data, budget)
@@ -124,7 +130,7 @@ def _c20_run(tier, seed, only=None, which=None):
             cases.append({"sample": rel, "op": "corrupt-many", "at": [rng.randrange(hdr) for _ in range(k)], "val": [rng.getrandbits(8) for _ in range(k)]})
         for case in cases:
             data = mutate(base, case)
-            st, what = identify(data, budget=10)
+            st, what = identify(data, budget=3)
             n += 1
             kinds.add((rel, case["op"], what if st == "ok" else st))
             if st != "ok" or what not in KNOWN_CLASSES:
